@@ -1,5 +1,5 @@
 # Human-written part of MANIFEST.json (tools/gen_manifest.py merges it with registry.py).
-HOOK_COMMITS = ["a842bba", "3341887"]
+HOOK_COMMITS = ["a842bba", "3341887", "f9c8b5d", "69cf264"]
 NOTES = ("All checks are property-based tests / fuzzing (pgregory.net/rapid v1.3.0 generators and state machines; native go fuzzing "
          "only in thorough tiers) against explicit oracles; see DESIGN.md. ./check <id> rebuilds the harness against /repo's working tree "
          "on every invocation (go test -c -tags verif with -modfile/-overlay generated under a scratch directory), runs sharded over all "
